@@ -112,6 +112,11 @@ def render(settings, routes):
     conf, argv = [], []
     for name, val in settings.items():
         tag, opt, kind = TABLE[name]
+        if kind == "true" and val is False:
+            # a switch stated as off: "TAG = .FALSE." through the tag route, simply absent through the option route
+            if routes.get(name, "opt") == "tag":
+                conf.append("%s = .FALSE." % tag)
+            continue
         if opt is None or routes.get(name, "opt") == "tag":  # opt None: the setting exists as a tag only (it still mixes with options)
             if kind == "true":
                 conf.append("%s = .TRUE." % tag)
@@ -265,6 +270,10 @@ def gen_post_step(rng, w, has_born, prev_wrote_fc, force_cmd=None):
         s["tolerance"] = 1e-4
     if rng.random() < 0.15:
         s["include_all"] = True
+    # switches stated explicitly as off (the default): must change nothing, through either route
+    for name_ in ("include_all", "eigvecs", "gv", "writedm", "band_connection", "xyz_projection", "gc"):
+        if name_ not in s and rng.random() < 0.06:
+            s[name_] = False
     if rng.random() < 0.08 and mode in ("mesh", "band", "qpoints") and not any(k.endswith("_format") for k in s) and not s.get("band_const_interval"):
         s["hdf5"] = True  # all outputs of the step in hdf5
     if rng.random() < 0.2 and mode in ("dos", "tprop"):
